@@ -23,7 +23,7 @@ func TestReplay(t *testing.T) { pbt.Replay(t) }
 
 // ---- variants ------------------------------------------------------------------------------
 
-var variants = []string{"v12", "v12-psk", "v12-epsk", "v12-cbc", "v12-cid", "v12-cid8", "v12-cid20-ccm", "v12-resumed", "v13", "v13-nohv", "dual-12"}
+var variants = []string{"v12", "v12-psk", "v12-epsk", "v12-cbc", "v12-cid", "v12-cid8", "v12-cid20-ccm", "v12-resumed", "v13", "v13-nohv", "dual-12", "dual-srv-12", "dual-srv-13"}
 
 var variantCID = map[string]int{"v12-cid": 4, "v12-cid8": 8, "v12-cid20-ccm": 20}
 
@@ -58,6 +58,13 @@ func epsFor(v string) (cl, sv scen.EP, resumed bool) {
 		sv.SkipHelloVfy = true
 	case "dual-12":
 		cl.MinVer, cl.MaxVer = 12, 13
+		cl.Curves, sv.Curves = []uint16{0x1d}, []uint16{0x1d}
+	case "dual-srv-12": // the server reads the first hello outside any state machine (version negotiation)
+		sv.MinVer, sv.MaxVer = 12, 13
+		cl.Curves, sv.Curves = []uint16{0x1d}, []uint16{0x1d}
+	case "dual-srv-13":
+		sv.MinVer, sv.MaxVer = 12, 13
+		cl.MinVer, cl.MaxVer = 13, 13
 		cl.Curves, sv.Curves = []uint16{0x1d}, []uint16{0x1d}
 	}
 
@@ -746,7 +753,25 @@ func runFlood(c FloodCase, r *pbt.R) {
 		if c.During {
 			next = 1
 		}
+		nextMsgSeq := 0
 		flood := func() {
+			if !c.During {
+				// message sequence numbers the client used so far (plaintext epoch 0 handshake records on the tap)
+				for _, ev := range p.Net.EventsFrom("C") {
+					recs, _ := scen.SplitDatagram(ev.Data, 0)
+					for _, rc := range recs {
+						if rc.Kind == "legacy" && rc.Type == scen.CTHandshake && rc.Epoch == 0 {
+							fr, _ := scen.SplitHandshake(rc.Body)
+							for _, f := range fr {
+								if f.MsgSeq+1 > nextMsgSeq {
+									nextMsgSeq = f.MsgSeq + 1
+								}
+							}
+						}
+					}
+				}
+				nextMsgSeq++ // the Finished (protected) took one more
+			}
 			for i := 0; i < c.N; i++ {
 				var d []byte
 				switch c.Kind {
@@ -774,6 +799,17 @@ func runFlood(c FloodCase, r *pbt.R) {
 						body = bytes.Repeat([]byte{0xab}, 8000)
 					}
 					d = legacyRecord(22, 0, uint64(i), append(hs, body...), 0) //nolint:gosec
+				case "tiny-future-fragments":
+					// one byte each, message sequences far ahead: the fragment COUNT limit, reached with 25-byte datagrams
+					seqNo := 1000 + i
+					hs := []byte{11, 0, 0x10, 0, byte(seqNo >> 8), byte(seqNo), 0, 0, 0, 0, 0, 1}
+					d = legacyRecord(22, 0, uint64(i), append(hs, 0xcd), 0) //nolint:gosec
+				case "complete-messages":
+					// whole, well-formed handshake messages (type 4..) with consecutive message sequences from the one
+					// the endpoint awaits next (0 during the handshake; after it the peer's count is taken from the tap)
+					seqNo := nextMsgSeq + i
+					hs := []byte{byte(4 + i%3), 0, 0x1f, 0x40, byte(seqNo >> 8), byte(seqNo), 0, 0, 0, 0, 0x1f, 0x40}
+					d = legacyRecord(22, 0, uint64(i), append(hs, bytes.Repeat([]byte{0xbe}, 8000)...), 0) //nolint:gosec
 				case "far-future-fragments":
 					hs := []byte{11, 0, 0x40, 0, byte((100 + i) >> 8), byte(100 + i), 0, 0, byte(i % 200), 0, 3, 0x84}
 					d = legacyRecord(22, 0, uint64(i), append(hs, bytes.Repeat([]byte{0xcc}, 900)...), 0) //nolint:gosec
@@ -821,6 +857,13 @@ func runFlood(c FloodCase, r *pbt.R) {
 			return
 		}
 		harmlessFlood := c.Kind == "garbage" || strings.HasPrefix(c.Kind, "future-epoch") || c.Kind == "ccs-current-epoch"
+		// An established connection has no use for plaintext handshake fragments: whatever the flood parked in
+		// the reassembly buffer, protected application data must still get through (a connection that drops
+		// every record from then on is wedged). During the handshake the same fragments compete with the
+		// genuine peer for the same buffer, which no endpoint can tell apart: only memory is judged there.
+		if !c.During {
+			harmlessFlood = true
+		}
 		if harmlessFlood && !strings.HasPrefix(c.Variant, "dual") {
 			if !(p.C.OK() && p.S.OK()) {
 				r.Failf("C08|stops-serving-after-flood|"+c.Kind, "handshake did not complete after a flood of %d %s datagrams: %v %v", c.N, c.Kind, p.C.Err(), p.S.Err())
@@ -846,7 +889,7 @@ func enumFlood(tier string, yield func(FloodCase) bool) {
 		n = 10000
 	}
 	for _, v := range []string{"v12", "v13"} {
-		for _, k := range []string{"future-epoch", "future-epoch-small", "future-epoch-hs", "future-epoch-ccs", "far-future-fragments", "fragment-regrow", "big-fragments", "garbage"} {
+		for _, k := range []string{"future-epoch", "future-epoch-small", "future-epoch-hs", "future-epoch-ccs", "far-future-fragments", "tiny-future-fragments", "complete-messages", "fragment-regrow", "big-fragments", "garbage"} {
 			for _, during := range []bool{true, false} {
 				if !yield(FloodCase{Variant: v, Kind: k, N: n, During: during}) {
 					return
